@@ -54,3 +54,73 @@ def slow_ident(x, delay=0.0):
   if delay:
     time.sleep(delay)
   return x
+
+
+# ---- calls in flight (C14 'span' cases): the remote callable blocks until the harness releases it
+import threading as _threading
+
+GATES = {}    # token -> {'started': [Event...], 'release': [Event...]}
+
+
+def make_gates(token, n):
+  GATES[token] = {'started': [_threading.Event() for _ in range(n)],
+                  'release': [_threading.Event() for _ in range(n)]}
+  return GATES[token]
+
+
+def blocked(token, i, fail=None, value=None):
+  """Signals that the handler is evaluating, waits for the harness, then raises `fail` or returns `value`."""
+  g = GATES[token]
+  g['started'][i].set()
+  if not g['release'][i].wait(30):
+    raise RuntimeError('c14: never released')
+  if fail is not None:
+    raise make_exc(*fail)
+  return value
+
+
+# ---- arguments whose == is ambiguous / that are unhashable but picklable (C14 'arr' cases)
+
+class Amb:
+  """Unhashable, picklable, and `==` has no truth value (like an ndarray)."""
+  __hash__ = None
+
+  def __init__(self, data):
+    self.data = list(data)
+
+  def __eq__(self, other):
+    raise ValueError('The truth value of an Amb comparison is ambiguous')
+
+
+def as_arg(kind, weights):
+  import numpy as np
+  if kind == 'ndarray':
+    return np.array(weights, dtype=float)
+  if kind == 'ndarray2d':
+    return np.array([weights, weights], dtype=float)
+  if kind == 'list':
+    return list(weights)
+  if kind == 'dict':
+    return {'w': list(weights)}
+  if kind == 'amb':
+    return Amb(weights)
+  if kind == 'tuple':
+    return tuple(weights)
+  raise ValueError(kind)
+
+
+class Scaler:
+  """A 'model' that is expensive to build, hence built once and cached; counts its calls."""
+
+  def __init__(self, weights):
+    import numpy as np
+    if isinstance(weights, dict):
+      weights = weights['w']
+    elif isinstance(weights, Amb):
+      weights = weights.data
+    self.weights = np.asarray(weights, dtype=float).reshape(-1)
+    self.calls = 0
+
+  def __call__(self, x):
+    self.calls += 1
+    return (self.weights * x).tolist(), self.calls
